@@ -226,6 +226,10 @@ class Eval:
                 return self.val(d["a"] if c else d["b"], depth - 1)
             return av_join(self.val(d["a"], depth - 1), self.val(d["b"], depth - 1))
         if op == "load":
+            if d["ptr"].startswith("@"):
+                e = self.flow.expr(ref)
+                if e[0] == "c" and isinstance(e[1], int):
+                    return ("in", frozenset([e[1]]))
             return self.facts.get(("M", self.flow.expr(d["ptr"])))
         if op in ("call", "invoke"):
             return self.flow.hooks.call_value(i, self) or None
